@@ -1194,8 +1194,8 @@ func (repo *Repository) load(ctx context.Context, depth int) error {
 		return errors.New("No branches to load")
 	}
 
-	branches := make(Branches, 0, indexCount)
-	pruneHeight := -1
+	loaded := make(Branches, 0, indexCount)
+	var pruneHeight int
 	for i := uint32(0); i < indexCount; i++ {
 		hash := &bitcoin.Hash32{}
 		if err := hash.Deserialize(indexBuf); err != nil {
@@ -1206,11 +1206,15 @@ func (repo *Repository) load(ctx context.Context, depth int) error {
 		if err != nil {
 			return errors.Wrapf(err, "branch %s", hash)
 		}
+		loaded = append(loaded, branch)
+	}
 
-		if pruneHeight == -1 { // use height of first branch since it is the longest
-			pruneHeight = branch.Height() - depth
-		}
+	// Prune relative to the most proof of work branch, like a running repository does. The first
+	// branch is not that branch when a reorg has not been consolidated yet.
+	pruneHeight = loaded.Longest().Height() - depth
 
+	branches := make(Branches, 0, len(loaded))
+	for _, branch := range loaded {
 		if branch.Height() < pruneHeight {
 			logger.InfoWithFields(ctx, []logger.Field{
 				logger.String("branch", branch.Name()),
